@@ -8,7 +8,9 @@ from pathlib import Path
 repo, spec, out, wseed = sys.argv[1:5]
 sys.path.insert(0, repo)
 if wseed != "-":
-    rng = random.Random(int(wseed))
+    # "asc" / "desc": the two extreme enumeration orders (every pair of sibling directories is visited in both orders
+    # across the two), otherwise a seeded shuffle
+    rng = random.Random(int(wseed)) if wseed not in ("asc", "desc") else None
     real_walk = os.walk
 
     def shuffled_walk(top, *a, **k):
@@ -21,8 +23,12 @@ if wseed != "-":
 
         def rec(root):
             dirs, files = by_root[root]
-            rng.shuffle(dirs)
-            rng.shuffle(files)
+            if rng is None:
+                dirs.sort(reverse=(wseed == "desc"))
+                files.sort(reverse=(wseed == "desc"))
+            else:
+                rng.shuffle(dirs)
+                rng.shuffle(files)
             out_list.append((root, dirs, files))
             for d in dirs:
                 rec(os.path.join(root, d))
